@@ -60,11 +60,29 @@ def unit(rng, target, n):
                 exp['al%d' % k] = ('align', v)
             if 0 <= v < 16:
                 form = rng.choice(['int *ad%d = &arr[%s];', 'int *ad%d = arr + %s;', 'char *ad%d = (char *)&obj + %s;', 'int *ad%d = &obj.i[%s %% 4];', 'const char *ad%d = "0123456789abcdefgh" + %s;',
-                                   'char *ad%d = &carr[16] - %s;', 'int *ad%d = &arr[16 + %s] - 3;'])
+                                   'char *ad%d = &carr[16] - %s;', 'int *ad%d = &arr[16 + %s] - 3;',
+                                   'unsigned long ad%d = 8 + (unsigned long)&arr[%s];', 'int *ad%d = %s + arr;', 'int *ad%d = 1 + (arr + %s);', 'char *ad%d = 2 + ((char *)&obj + %s) - 1;',
+                                   'long ad%d = (long)&carr[%s] + 3;', 'const char *ad%d = 1 + ("0123456789abcdefgh" + %s);', 'int *ad%d = 3 + &obj.i[%s %% 4] - 2;'])
                 decls.append(dataref.Decl(did + 'ad', form % (k, e), ['ad%d' % k], meta=(e, v, t, 'address-constant')))
                 exp['ad%d' % k] = None
         decls.append(dataref.Decl(did + 'cc', 'long long cc%d = (%s) ? 11 : 22;' % (k, e), ['cc%d' % k], meta=(e, v, t, 'conditional-constant')))
         exp['cc%d' % k] = le(11 if v != 0 else 22, m.LLONG)
+        if t.isint and v != 0 and rng.random() < 0.3:
+            # the assertion's own value, not a comparison: any non-zero value is true, whatever its low 32 bits are
+            decls.append(dataref.Decl(did + 'sb', '_Static_assert(%s, "");' % e, [], meta=(e, v, t, 'static-assert-value')))
+            if t.bits == 64 or v > 0:
+                big = '((%s) != 0) * 0x%x00000000%s' % (e, rng.randrange(1, 0x7fffffff), rng.choice(['ll', 'ull', 'l']))
+                decls.append(dataref.Decl(did + 'sc', '_Static_assert(%s, "");' % big, [], meta=(big, 1, t, 'static-assert-value')))
+    # fixed boundary forms: enumerators and assertions at the limits of the types
+    for j, (text, names, expv) in enumerate([
+            ('enum { xFA = -2147483648, xFB }; long long xfa[] = { sizeof(xFA), xFA + 0u, xFA < 0u, xFB, sizeof(xFB) };', ['xfa'], le(4, m.LLONG) + le(2147483648, m.LLONG) + le(0, m.LLONG) + le(-2147483647, m.LLONG) + le(4, m.LLONG)),
+            ('enum { xGA = 2147483647, xGZ = 0 }; long long xga[] = { sizeof(xGA), xGA + 1u, -xGZ - 1 < 0 };', ['xga'], le(4, m.LLONG) + le(2147483648, m.LLONG) + le(1, m.LLONG)),
+            ('enum xH { xHM = (-9223372036854775807ll - 1), xHN = 9223372036854775807ll }; long long xha[] = { xHM, xHN, sizeof(enum xH) };', ['xha'], le(-(1 << 63), m.LLONG) + le((1 << 63) - 1, m.LLONG) + le(8, m.LLONG)),
+            ('_Static_assert(0x100000000, ""); _Static_assert(1ull << 40, ""); _Static_assert(-0x7fffffff00000000ll, ""); _Static_assert(0x8000000000000000u, ""); _Static_assert(sizeof(char[3][65536][65536]), ""); long long xsa = 1;', ['xsa'], le(1, m.LLONG)),
+            ('long long xdv[] = { 5ull % 18446744073709551615ull, 18446744073709551615ull / 18446744073709551615ull, 7ul / -1ul, 7ul % ~0ul, -8ll / -1ll, -8ll % -1ll };', ['xdv'],
+             le(5, m.LLONG) + le(1, m.LLONG) + le(0, m.LLONG) + le(7, m.LLONG) + le(8, m.LLONG) + le(0, m.LLONG))]):
+        decls.append(dataref.Decl('fx%d' % j, text, names, meta=(text[:60], 0, m.LLONG, 'fixed-boundary-form')))
+        exp[names[0]] = expv
     return prefix, decls, exp, negs
 
 
